@@ -354,6 +354,18 @@ def stream_ops(seed, count, prefix="R"):
         elif k == 2:
             faults.append("w%d" % rng.below(len(lines) + 1))
         ops.append(("%s%d" % (prefix, i), ["stream", Cfg(n=bool(i & 1)).s(), ",".join(faults) or "-", hx(data)]))
+    # several FILES of one run (plain and .gz), one after the other in one process, against the model's per-file stream loop
+    for i in range(max(2, count // 12)):
+        g = G(rng.fork())
+        files, kinds = [], ""
+        for q_ in range(2 + rng.below(3)):
+            ls = [to_json(g.line()).encode() if rng.chance(3, 4) else rng.choice([b"", b"not json", b'{"trunc":', b'{"a":1} x']) for _ in range(1 + rng.below(4))]
+            files.append(b"\n".join(ls) + (b"\n" if rng.chance(2, 3) else b""))
+            kinds += rng.choice("pg")
+        if rng.chance(1, 2):
+            files.append(files[0])
+            kinds += kinds[0]
+        ops.append(("%sf%d" % (prefix, i), ["files", [Cfg(), Cfg(n=True, w=True), Cfg(enc=3), Cfg(enc=3, b=True)][i % 4].s(), kinds] + [hx(d) for d in files]))
     # boundary of the scanner limit, with and without final newline / CR
     for j, n in enumerate([65534, 65535, 65536, 65537]):
         for k, tail in enumerate([b"", b"\n", b"\r\n", b"\r"]):
